@@ -208,7 +208,16 @@ def p_image(name, img, states, run_ops):
     chk = [r for o, r in ops if o == 'checkall']
     if chk and chk[-1] != ['ok']:
         fails.append(('check_after_append', 'Check -> %s' % chk[-1]))
+    fails += p_after_append(ops)
     return fails
+
+
+def p_after_append(ops):
+    """what was appended (and closed) after the recovery is still there after the next recovery"""
+    sc3, sc4 = scan_of(ops, 2), scan_of(ops, 3)
+    if sc3 is not None and sc4 != sc3:
+        return [('append_survives_next_recovery', 'after append %s; after the next Recover %s' % (sc3, sc4))]
+    return []
 
 
 def durable_acks(run_ops):
@@ -258,6 +267,8 @@ def p_image_pl(name, img, states, run_ops):
             [m.split('|')[0] for m in msgs], [m.split('|')[0] for m in b_list])))
     if nxt is None or nxt < w:
         fails.append(('next_offset_at_least_synced', 'NextOffset %s < w=%d' % (nxt, w)))
+    # Close has returned after the append that followed the recovery: nothing of it may be lost either
+    fails += p_after_append(ops)
     return fails
 
 
@@ -351,7 +362,15 @@ def crash_signature(img, run_ops):
     for o, _ in run_ops[:i + 1]:
         if o.startswith('open'):
             ver = int(o.split()[8])
-    return dict(inflight=op, event=hdr.get('kind'), path=path, torn='torn' in hdr, newver=ver)
+    # does the image hold a log file of 1..7 bytes (a first record or a file header cut inside its first 8 bytes)?
+    short = False
+    for o, _ in img.get('ops', []):
+        if o.startswith('loaddir'):
+            for tok in o.split()[1:]:
+                n, _, hx = tok.partition(':')
+                if n.endswith('.log') and hx != '-' and 0 < len(hx) // 2 < 8:
+                    short = True
+    return dict(inflight=op, event=hdr.get('kind'), path=path, torn='torn' in hdr, newver=ver, short_log=short)
 
 
 def match_known_crash(known, pid, sig, fails):
